@@ -685,14 +685,43 @@ def rule_build_guards(F, ev_unused, R, config, rule="R-BUILD-GUARDS"):
     fb = lambda b: b.j.get("impl", {}).get("self_adt") == ADT_FNBUILDER or (b.kind == "Closure" and ADT_FNBUILDER in b.j.get("root", ""))
     def invalid_deriv(c, b, e, s):
         # ∀ m∈model_parameters. ¬(contains(function_parameters, m) ∧ m == parameter)
+        rb0 = root_of(b)
+        name0 = P2(rb0)
+        from rules_model import fnbuilder_list_roles
+        mrole0, frole0 = fnbuilder_list_roles(F, ev)
+
         def ok(f):
+            """∀ m∈D. (m ∉ X₁ ∨ … ∨ m ≠ name) with string (in)equality as the only test of the name, and the function's
+            own parameter list among D, X₁, … (so that the formula implies: the name is not a parameter of the function)"""
             if f[0] != "forall":
                 return False
             dom = f[1]
-            if not (dom[0] == "field" and dom[1] == P1(root_of(b))):
+            if not (dom[0] == "field" and dom[1] == P1(rb0)):
                 return False
-            return logic.mentions(f[2], lambda x: x == P2(root_of(b))) and logic.mentions(f[2], lambda x: x[0] in ("item",))
+            it = ("item", dom)
+            lists = {dom[2]}
+            ds = f[2][1] if f[2][0] == "or" else (f[2],)
+            n_ne = 0
+            for d in ds:
+                if d[0] == "rel" and d[1] == "Ne" and set((d[2], d[3])) == {it, name0}:
+                    n_ne += 1
+                    continue
+                X = None
+                if d[0] == "forall" and d[2][0] == "rel" and d[2][1] == "Ne" and set((d[2][2], d[2][3])) == {("item", d[1]), it}:
+                    X = d[1]
+                elif d[0] == "not" and d[1][0] == "exists" and d[1][2][0] == "rel" and d[1][2][1] == "Eq" and set((d[1][2][2], d[1][2][3])) == {("item", d[1][1]), it}:
+                    X = d[1][1]
+                else:
+                    t = atom_call(d, "::contains", False)
+                    if t is not None and len(t[3]) == 2 and t[3][1] == it and "str::" not in t[1]:
+                        X = t[3][0]
+                if X is None or not (X[0] == "field" and X[1] == P1(rb0)):
+                    return False
+                lists.add(X[2])
+            return n_ne >= 1 and frole0 in lists and lists <= {mrole0, frole0}
         hit = conj_find(c, ok, under_exists=False)
+        if __import__("os").environ.get("VP_DBG"):
+            print("DBG invalid_deriv", bool(hit), [logic.show_f(f)[:400] for f in c])
         if hit:
             return hit
         # equivalent disjunctive form (e.g. a lookup helper that first tests membership in the function's list and
